@@ -40,6 +40,11 @@ type Step struct {
 	// the real prompt) which the transport delivers in ONE read; the notice does not consume a line.
 	// One read holding two prompt-looking lines is one match on the buffer, hence one answer.
 	Uncut bool `json:"uncut,omitempty"`
+	// Then, ThenText (ssh failure lines): the failure line is followed, in the same read (one uncut
+	// span), by a prompt: Then = password | passphrase | shell. The device is then really asking (or
+	// at its shell), but a recognised failure line comes first: connection error.
+	Then     string `json:"then_kind,omitempty"`
+	ThenText string `json:"then_text,omitempty"`
 }
 
 // firstMatch is the smallest deliverable prefix of a credential step's text on which its pattern
